@@ -120,6 +120,13 @@ type Spec struct {
 	// of the job's files directory (its own directory with a one-character
 	// file name, or files/n1/n2/).
 	NestFilesPct int `json:"nest_files_pct,omitempty"`
+	// PhysicalPathsPct: chance that a stage names an output file by its physical
+	// path (symlinks in the directory part resolved, as `pwd -P` / realpath
+	// would) instead of the path it was handed.
+	PhysicalPathsPct int `json:"physical_paths_pct,omitempty"`
+	// SymlinkedParent: the pipestance directory is reached through a symlinked
+	// parent directory (<case>/link -> <case>/real).
+	SymlinkedParent bool `json:"symlinked_parent,omitempty"`
 	// Set by the probe from a matching rule: value of every bool leaf.
 	ForceBool *bool `json:"-"`
 	EmptyPct  int   `json:"-"`
